@@ -50,6 +50,7 @@ def run_version(args):
     fails = {}
     n_sent = n_checked = n_skipped = 0
     arcs = set()
+    sites = set()
     samples = []
 
     def fail(ob, sig, detail, text):
@@ -61,7 +62,8 @@ def run_version(args):
     for start in ('file_input', 'eval_input'):
         if start not in g.nfa:
             continue
-        for arc, tree in dv.sentences([start]):
+        import itertools
+        for arc, tree in itertools.chain(dv.sentences([start]), dv.sentences_in_sites([start])):
             for var in range(variants):
                 n_sent += 1
                 text, labels, leaves = GO.render(tree, var)
@@ -74,7 +76,8 @@ def run_version(args):
                     n_skipped += 1      # not a token sequence the tokenizer reproduces from this rendering
                     continue
                 n_checked += 1
-                arcs.add((start,) + arc)
+                arcs.add((start,) + arc[:3])
+                sites.add((start,) + arc)
                 if len(samples) < 4 and n_checked % 211 == 5:
                     samples.append(dict(version=version, arc=list(arc), text=text[:160]))
                 exp = _strip(GO.normalise_params(GO.expected_shape(tree, iter([t for _, t in leaves]))))
@@ -103,7 +106,7 @@ def run_version(args):
                             fail('bnd:C06.recovering_identical', '%s:%s' % (arc[0], arc[2]), 'recovering parse differs', text)
                     except Exception as e:  # noqa
                         fail('bnd:C06.recovering_identical', crash_signature(e), repr(e), text)
-    return dict(version=version, sentences=n_sent, checked=n_checked, skipped=n_skipped, arcs=len(arcs),
+    return dict(version=version, sentences=n_sent, checked=n_checked, skipped=n_skipped, arcs=len(arcs), site_arcs=len(sites),
                 fails=list(fails.values()), samples=samples,
                 total_arcs=sum(len(tr) for n in g.names for tr in g.dfa[n].trans))
 
@@ -127,7 +130,8 @@ def main():
                samples=[s for r in res for s in r['samples']][:8],
                scope=dict(versions=vs, variants=a.variants),
                rule='per version: one derivation per automaton arc of every rule reachable from file_input and eval_input '
-                    '(shortest completion), %d spelling/layout variants; sentences whose rendering the tokenizer does not '
+                    '(shortest completion), and one per (arc, rule that refers to this rule) so that every arc is also taken '
+                    'inside every context that uses the rule; %d spelling/layout variants; sentences whose rendering the tokenizer does not '
                     'reproduce token for token are skipped (counted); distinct_nontrivial = distinct (start, rule, state, '
                     'label) arcs exercised by an accepted sentence' % a.variants)
     with open(a.out, 'w') as f:
